@@ -650,16 +650,6 @@ class C15(Base):
                     self.own(w, "observer_perturbs", s,
                              "stream with observer reads differs from the "
                              "stream of the same history without them")
-        # helper calls must give the value a pristine process gives
-        if w.calls:
-            res_ops = [op for op, _ in w.calls]
-            st = pristine_calls(self.helper, res_ops)
-            for (op, out), exp in zip(w.calls, st):
-                if out != exp:
-                    w.violation(self.ID, "helper_differs_from_fresh", None,
-                                f"{op} returned {out} here, {exp} in a "
-                                "pristine process")
-
     def nontrivial(self, w):
         order = w.slot_order
         switches = sum(1 for a, b in zip(order, order[1:]) if a != b)
@@ -716,12 +706,3 @@ class C15(Base):
                                "forked baseline", "op": 0}, ops))
         return {"fresh_interpreter_baselines": len(cfgs),
                 "fresh_interpreter_mismatches": bad}, harness, viols
-
-
-def pristine_calls(helper, ops):
-    """Values of helper calls in a pristine process, one fork per call."""
-    out = []
-    for op in ops:
-        w = helper.ask([op], {"monitor_counters": False})
-        out.append(w.get("__calls__", [None])[0])
-    return out
